@@ -96,7 +96,7 @@ CHECKS = {
     'C15': dict(
         gens=['Partition'],
         props='ZanVerif.Props.C15',
-        protos=[dict(name='c15', quick_seeds=1, thorough_seeds=5)],
+        protos=[dict(name='c15', spec=True, quick_seeds=1, thorough_seeds=5)],
         rule="random and adversarial raw keys (bytes incl. ':' 0x00 0xff, lengths 0..300, namespaces valid/malformed) x partition counts 1..1024; "
              "a case is non-trivial when the real code answered without error; distinct = distinct op lines",
         trusted=["murmur3 (spaolacci) itself is modelled in Lean and tied by the differential run only; 64-bit int assumed",
@@ -285,11 +285,11 @@ CHECKS = {
     'C08': dict(
         gens=['Consts', 'CollConsts', 'Ttl', 'TtlKV'],
         props=['ZanVerif.Props.C08', 'ZanVerif.Props.C08KV', 'ZanVerif.Props.C08Set', 'ZanVerif.Props.C08List', 'ZanVerif.Props.C08ZSet'],
-        protos=[dict(name='datacore', quick_seeds=2, thorough_seeds=2, classes='panic'),
-                dict(name='datacorekv', quick_seeds=2, thorough_seeds=2, classes='panic'),
-                dict(name='datacoreset', quick_seeds=2, thorough_seeds=2, classes='panic'),
-                dict(name='datacorelist', quick_seeds=2, thorough_seeds=2, classes='panic'),
-                dict(name='datacorezset', quick_seeds=3, thorough_seeds=4, classes='panic')],
+        protos=[dict(name='datacore', quick_seeds=2, thorough_seeds=2, classes='panic', spec=True),
+                dict(name='datacorekv', quick_seeds=2, thorough_seeds=2, classes='panic', spec=True),
+                dict(name='datacoreset', quick_seeds=2, thorough_seeds=2, classes='panic', spec=True),
+                dict(name='datacorelist', quick_seeds=2, thorough_seeds=2, classes='panic', spec=True),
+                dict(name='datacorezset', quick_seeds=3, thorough_seeds=4, classes='panic', spec=True)],
         rule=DATACORE_RULE,
         trusted=DATACORE_TRUST,
         partial=['KV (Props/C08KV.lean): C08_kv_refines_partial / C08_kv_run_refines_partial / C08_del_keys_partial carry Z.KVSpec.Conforms; each excluded deviation from redis has a witness theorem C08_dev_* on the executable model (DEL / SETIFEQ / DELIFEQ on a key expired in log time, INCRBY wraps int64, APPEND / SETRANGE with an empty value answer 0, PERSIST answers 1 without TTL, EXPIRE onto an instant <= 0, DEL k k counts twice)', 'everything except hget/hset/hdel', 'duplicate fields inside one command were a genuine defect (fixed) and are outside the model'],
@@ -301,10 +301,10 @@ CHECKS = {
     'C09': dict(
         gens=['Consts', 'CollConsts'],
         props=['ZanVerif.Props.C09', 'ZanVerif.Props.C09Set', 'ZanVerif.Props.C09List', 'ZanVerif.Props.C09ZSet'],
-        protos=[dict(name='data', mode='oracle', quick_seeds=1, thorough_seeds=1, classes='count-enum-mismatch:'), dict(name='datacore', quick_seeds=1, thorough_seeds=1, classes='count-enum-mismatch:'),
-                dict(name='datacoreset', quick_seeds=2, thorough_seeds=2, classes='count-enum-mismatch:'),
-                dict(name='datacorelist', quick_seeds=2, thorough_seeds=2, classes='count-enum-mismatch:'),
-                dict(name='datacorezset', quick_seeds=3, thorough_seeds=4, classes='(count-enum-mismatch:|panic)')],
+        protos=[dict(name='data', mode='oracle', quick_seeds=1, thorough_seeds=1, classes='count-enum-mismatch:'), dict(name='datacore', spec=True, quick_seeds=1, thorough_seeds=1, classes='count-enum-mismatch:'),
+                dict(name='datacoreset', spec=True, quick_seeds=2, thorough_seeds=2, classes='count-enum-mismatch:'),
+                dict(name='datacorelist', spec=True, quick_seeds=2, thorough_seeds=2, classes='count-enum-mismatch:'),
+                dict(name='datacorezset', spec=True, quick_seeds=3, thorough_seeds=4, classes='(count-enum-mismatch:|panic)')],
         rule=DATA_RULE,
         trusted=DATA_TRUST,
         partial=['inv preserved by hdel / set / zset / list commands: not yet theorems'],
@@ -317,8 +317,8 @@ CHECKS = {
         gens=['Ttl', 'TtlKV'],
         props=['ZanVerif.Props.C10', 'ZanVerif.Props.C10KV', 'ZanVerif.Props.C10Hash'],
         protos=[dict(name='data', mode='oracle', quick_seeds=1, thorough_seeds=1, classes='(expired-visible|resurrection|ttl-|early-removal):'),
-                dict(name='datacorekv', quick_seeds=2, thorough_seeds=2, classes='(expired-visible|resurrection|ttl-|panic)'),
-                dict(name='datacorettl', quick_seeds=2, thorough_seeds=2, classes='(expired-visible|resurrection|ttl-|panic)')],
+                dict(name='datacorekv', spec=True, quick_seeds=2, thorough_seeds=2, classes='(expired-visible|resurrection|ttl-|panic)'),
+                dict(name='datacorettl', spec=True, quick_seeds=2, thorough_seeds=2, classes='(expired-visible|resurrection|ttl-|panic)')],
         rule=DATA_RULE,
         trusted=DATA_TRUST,
         partial=['Props/C10KV.lean, C10Hash.lean (executable models, datacorekv / datacorettl): C10_dead_after_expiry_partial excludes DEL / SETIFEQ / DELIFEQ, C10_hash_dead_after_expiry_partial excludes HDEL (witnesses C10_*_false_*, known finding C10-removers-see-expired-generation); C10_no_resurrection (hash) carries the explicit fresh-version hypothesis, witnesses C10_equal_ts_witness(_expiry) by decide on the executable model', 'C10_no_resurrection_partial carries the equal-timestamp proviso (known finding)', 'C10_local_never_early is false on this tree (known finding C10-local-deletion-earliest-ttl); only the oracle covers the local-deletion policy', 'C10_filter_safe (compaction filter) not built'],
@@ -342,7 +342,7 @@ CHECKS = {
     'C13': dict(
         gens=[],
         props='ZanVerif.Props.C13',
-        protos=[dict(name='scan', quick_seeds=2, thorough_seeds=3)],
+        protos=[dict(name='scan', spec=True, quick_seeds=2, thorough_seeds=3)],
         rule="populations of up to 25 keys of the five types over 1-3 neighbouring tables (t, t!, t0, s) with names that are prefixes of each other / contain ':' ';' 0x00 0xff, collections of up to 12 members; "
              "single pages and full client loops (cursor fed back until empty) of ADVSCAN / ADVREVSCAN for every type and of HSCAN/SSCAN/ZSCAN and their reverse forms, COUNT 1-6 and 0 (default) / 7 / 30 / 100 / 5001, start cursors inside and beyond the population, on pebble and mem(btree); "
              "non-trivial = answered without error; distinct = distinct op lines",
@@ -499,3 +499,8 @@ CHECKS['C02'].update(
     assumptions=CHECKS['C02']['assumptions'] + _C02LOG['assumptions'],
     level_text=CHECKS['C02']['level_text'] + " LOG LAYER (Props/C02Log.lean): " + _C02LOG['level_text'],
 )
+
+# ---- C17 after the repair of F5 (fillPartitionMapV2 no longer panics on old lists longer than the replica factor)
+CHECKS['C17']['partial'][0] = 'an old layout with MORE partitions than requested can make moveIfUnbalanced index partitionNodes out of range (outcome panicIndex of the model, excluded by the hypothesis old.length <= parts of C17_v2_total / C17_v2_total_full; the partition count of a namespace never shrinks); C17_v2_never_empty_candidates needs no such hypothesis'
+CHECKS['C17']['level_text'] = 'Theorems about the executable Lean model of getRebalancedNamespacePartitions (getNodeNameList, interleave, fillPartitionMapV1, fillPartitionMapV2 with moveIfUnbalanced and both comparators), for all inputs: v1 shape, distinct names, DC spread incl. wrap-around, leader balance; refusal iff too few nodes (over the regenerated guards); v2: every answer has exactly `replica` distinct live names per partition for every duplicate-free old layout, and v2 answers (no panic) for EVERY old layout with no more partitions than requested - old ISR lists of any length, mid-migration lists longer than the replication factor included - so that v2 either refuses (iff too few nodes) or returns a valid layout (C17_v2_total_full); the empty-candidate-set panic is unreachable for every old layout whatsoever (C17_v2_never_empty_candidates); the answer does not depend on the enumeration order of the node map. The model is tied to the code by regenerated decision expressions (guards, ring slot/step, name index, comparators, thresholds, move budget) and by 5k-1M differential evaluations per run, every op also judged by an independent Go oracle.'
+CHECKS['C17']['level_note'] = 'F5 (nil.(loadItem) panic of fillPartitionMapV2 for an old ISR list longer than the replication factor) was found here and is fixed in the repository (the fill loop reuses and excludes only the first `replica` old names); its witnesses are corpus lines; v2 DC spread is oracle-checked only.'
